@@ -1128,6 +1128,22 @@ impl HashColumn {
 		Ok(address.as_u64())
 	}
 
+	fn check_children_count(node: &NewNode) -> Result<()> {
+		if node.children.len() > u8::MAX as usize {
+			return Err(Error::InvalidInput(format!(
+				"Tree node with {} children: at most {} are supported",
+				node.children.len(),
+				u8::MAX
+			)))
+		}
+		for child in &node.children {
+			if let NodeRef::New(child) = child {
+				Self::check_children_count(child)?;
+			}
+		}
+		Ok(())
+	}
+
 	/// returns value for the root node and vector of NodeChange for nodes.
 	pub fn claim_tree_values(
 		&self,
@@ -1135,6 +1151,10 @@ impl HashColumn {
 	) -> Result<(Vec<u8>, Vec<NodeChange>)> {
 		match change {
 			Operation::InsertTree(_key, node) => {
+				// The child count is stored in one byte: a node with more children cannot be
+				// represented and must be rejected before any slot is claimed.
+				Self::check_children_count(node)?;
+
 				let tables = self.tables.upgradable_read();
 
 				let values = self.as_ref(&tables.value);
